@@ -39,6 +39,21 @@ def durations(D, n):
     return out
 
 
+def plateaus(n, ks):
+    vals = (0.0, 3.0, 1.0, 0.0, 1.0, 3.0, 0.5)
+    lens = sorted({1, 2, 3} | {k + d for k in ks for d in (-1, 0, 1, 2) if k + d > 0})
+    out = []
+    r = 0
+    while len(out) < n:
+        ln = lens[(r * 5 + r // len(lens)) % len(lens)]
+        run = [vals[r % len(vals)]] * ln
+        if r % 7 == 3 and ln > 2:
+            run[ln // 2] = alpha.NAN
+        out.extend(run)
+        r += 1
+    return out[:n]
+
+
 def tasks(tier):
     ts = [("long", D) for D in (1, 60, 900)] + [("masked",), ("xl",)]
     for n in range(0, FULL_N[tier] + 1):
@@ -94,6 +109,16 @@ def run_task(task, acc):
         x = alpha.xl(SIGMA)
         cases = (dict(x=list(x), D=60, suspect=s, fail=f, tol=tol) for s, f in ((60, 180), (120, 30), (600, 90), (90, 100000)) for tol in (0.5, 2.0, 3.5))
         run_cases(acc, cases, check_case)
+
+        def gen():
+            # long records made of plateaus whose lengths straddle the window sizes (k-1, k, k+1, k+2 points)
+            for D, s_, f_, n in ((60, 600, 1200, 12345), (60, 2400, 4500, 3000), (60, 6000, 9000, 12345), (1, 300, 600, 4000), (3600, 86400, 43200, 5000)):
+                ks = sorted({int(s_ // D), int(f_ // D)})
+                px = plateaus(n, ks)
+                for tol in (0.5, 2.0):
+                    yield dict(x=px, D=D, suspect=s_, fail=f_, tol=tol)
+                    yield dict(x=px, D=D, suspect=s_ + D / 2, fail=f_ + D / 2, tol=tol)
+        run_cases(acc, gen(), check_case)
         return
     if task[0] == "masked":
         def gen():
